@@ -44,7 +44,7 @@ theorem cleanup_fields (z : State) :
   have hb : heightOf batchCleanupSrc z = z.obsExt := by rw [e1]; rfl
   have hc : heightOf callCleanupSrc (cleanupBatches z) = z.obsExt := by rw [e2]; rfl
   simp only
-  obtain ⟨fm, hfm⟩ := cleanupCalls_core (cleanupBatches z)
+  obtain ⟨fm, er, hfm⟩ := cleanupCalls_core (cleanupBatches z)
   rw [hfm]
   unfold cleanupCallsCore
   obtain ⟨_, h2, h3, _, h5, h6, _⟩ := foldl_refundCall (expiredCalls (heightOf callCleanupSrc (cleanupBatches z)) (cleanupBatches z).calls)
@@ -254,7 +254,7 @@ theorem J_pcall {s : State} {x : Ext} (hj : J s x) (a r : Addr) (to d m : String
 /-! ## applying a pending result -/
 
 theorem J_exec {s : State} {x : Ext} (hj : J s x) (n : Nat) : J (doExec s n).1 x := by
-  unfold doExec
+  rw [doExec_flags]; unfold doExecFlags
   split
   · exact hj
   · rename_i p hp
@@ -566,12 +566,12 @@ theorem released_only_by_observation (s : State) (op : Op) :
     constructor
     · intro b hb hn
       exfalso; apply hn
-      unfold doExec
+      rw [doExec_flags]; unfold doExecFlags
       repeat' split
       all_goals first | exact hb | (simp only [refundCall]; exact hb)
     · intro c hc hn
       right
-      unfold doExec at hn
+      rw [doExec_flags] at hn; unfold doExecFlags at hn
       split at hn
       · exact absurd hc hn
       · rename_i p hp
@@ -768,7 +768,7 @@ theorem N_step {s : State} {x : Ext} (hn : N s x) (op : Op) : N (step s op).1 (x
         rw [f2, g1] at hc
         exact (dropWhile_sublist _).subset hc
   | exec n =>
-    simp only [step, Ext.nextStd]; unfold doExec
+    simp only [step, Ext.nextStd]; rw [doExec_flags]; unfold doExecFlags
     repeat' split
     all_goals first
       | exact hn
